@@ -14,7 +14,11 @@ Inductive case :=
       (o : outcome) (h : dh) (f : fields) (re : option bytes)
 (* marshal(h, f) = enc; unmarshal(enc): outcome, header fields, fields *)
 | Enc (st : stack) (m : mt) (h : dh) (f : fields) (enc : option bytes)
-      (o2 : outcome) (h2 : dh) (f2 : fields).
+      (o2 : outcome) (h2 : dh) (f2 : fields)
+(* datagram stack: a message decoded from input (accepted = ok) is given message_seq seq and
+   encoded: a1 with the decoder's cached encoding in place, a2 after it had been encoded once from
+   its fields.  Both must be input with the two message_seq bytes replaced. *)
+| Reseq (m : mt) (input : bytes) (seq : N) (ok : bool) (a1 a2 : option bytes).
 
 (* ---------- equality tests ---------- *)
 Fixpoint bytes_eqb (a b : bytes) : bool :=
@@ -72,8 +76,14 @@ Definition same_dec (r : res (dh * fields)) (o : outcome) (h : dh) (f : fields) 
   | _, _ => false
   end.
 
+Definition renumbered (input : bytes) (seq : N) : bytes :=
+  firstn 4 input ++ [seq / 256; seq mod 256] ++ skipn 6 input.
+Definition reseq_bad (input : bytes) (seq : N) (ok : bool) (a1 a2 : option bytes) : bool :=
+  ok && negb (obytes_eqb a1 (Some (renumbered input seq)) && obytes_eqb a2 (Some (renumbered input seq))).
+
 Definition mismatch (c : case) : bool :=
   match c with
+  | Reseq _ input seq ok a1 a2 => reseq_bad input seq ok a1 a2
   | Dec st m _ input o h f re =>
       negb (same_dec (decode st m input) o h f &&
             match o with OOk => obytes_eqb re (encode st m h f) | _ => true end)
@@ -147,6 +157,7 @@ Definition wire16_kept (bs : bytes) (f : fields) : bool :=
    values on the wire (K6, fixed in fe30aba: must never fire) *)
 Definition spec_code (c : case) : N :=
   match c with
+  | Reseq _ input seq ok a1 a2 => if reseq_bad input seq ok a1 a2 then 10 else 0
   | Dec st m captured input o h f re =>
       match o with
       | OPanic => 4
